@@ -67,7 +67,7 @@ func prepareWsimObserver(c *prepCtx) error {
 func init() {
 	register(&propDef{
 		ID: "C01", Engine: "wsim", Pkg: "./engines/wsim", Level: "exploration",
-		Runs:        map[string]int{"quick": 8000, "thorough": 400000},
+		Runs:        map[string]int{"quick": 30000, "thorough": 400000},
 		MaxSec:      map[string]float64{"quick": 600, "thorough": 3600},
 		Rule:        "one run = one Wuffs program (hand corpus, or seeded generator) given to the working tree's tokenizer, parser and checker; if ACCEPTED, executed by a reference interpreter under a seeded history of 1-8 public-method calls with boundary-biased arguments; the C01 monitor checks every statement-position value against the compiler's derived range and every index, slice, shift, division, conversion, assignment, argument and return against actual lengths and types",
 		Real:        []string{"lang/token, lang/parse, lang/check of the working tree (the acceptance decision and every MType/MBounds annotation)"},
@@ -76,7 +76,7 @@ func init() {
 	})
 	register(&propDef{
 		ID: "C02", Engine: "wsim", Pkg: "./engines/wsim", Level: "exploration",
-		Runs:        map[string]int{"quick": 12000, "thorough": 600000},
+		Runs:        map[string]int{"quick": 40000, "thorough": 600000},
 		MaxSec:      map[string]float64{"quick": 600, "thorough": 3600},
 		Prepare:     prepareWsimObserver,
 		Rule:        "one run = one Wuffs program (hand corpus; seeded near-miss generator; seeded axiom-instance generator reading lang/check/axioms.md of the working tree) given to the working tree's checker, whose fact list before every statement is recorded through an observer injected at check time; if ACCEPTED, the program is executed by the reference interpreter under a seeded history of public calls on one persistent receiver, and every time execution reaches a statement - every loop iteration, every call - each recorded fact is evaluated in ideal integers on the concrete state and must be true. Facts the evaluator cannot interpret are counted as skipped, never reported",
